@@ -13,10 +13,11 @@ setop/arity    _SetOperation.get_sql raises SetOperationException exactly at an 
 from __future__ import annotations
 
 import ast
+import re
 
 import z3
 
-from contracts.spec.raises import DELEGATED, RAISES
+from contracts.spec.raises import DELEGATED, OVERRIDES, RAISES
 
 from .. import smt
 from ..driver import run_function
@@ -44,6 +45,10 @@ def spec_args(run):
     return args, kwargs
 
 
+def _msg_ok(o, frag):
+    return frag is None or frag in str(o.value[1])
+
+
 def check_guard(item):
     fshort, cq, entries = item
     r = repo()
@@ -53,7 +58,7 @@ def check_guard(item):
     def pre(ex, self_obj, params):
         snap["st"] = ex.st.snapshot()
 
-    run = run_function(fi, ci, pre=pre)
+    run = run_function(fi, ci, pre=pre, overrides=OVERRIDES.get(fshort))
     name = f"{fi.short}@{ci.short}"
     if run.error:
         return [Obligation(PROP, f"{name}|raise/iff", "raise/iff", fi.short, UNSUPPORTED, reason=run.error)]
@@ -61,7 +66,9 @@ def check_guard(item):
     args, kwargs = spec_args(run)
     obs = []
     conds = {}
-    for exc, sname, inmod in entries:
+    msgs = {}
+    for exc, sname, inmod, msg in entries:
+        msgs[exc] = msg
         try:
             v = eval_spec(ex, snap["st"], "raises", sname, args, in_module=inmod, kwargs=kwargs)
             saved = ex.st
@@ -79,7 +86,7 @@ def check_guard(item):
         n_raise = n_ret = 0
         for o in run.outcomes:
             pc = list(o.state.pc)
-            if o.status == "raise" and o.value and str(o.value[0]) == exc:
+            if o.status == "raise" and o.value and str(o.value[0]) == exc and _msg_ok(o, msgs[exc]):
                 n_raise += 1
                 if not ex.smt.implied(pc, c):
                     bad.append(f"raises {exc} on a path where the specified condition can be false")
@@ -91,7 +98,7 @@ def check_guard(item):
         if not n_raise:
             bad.append(f"no path raises {exc} (guard removed or unreachable)")
         obs.append(Obligation(PROP, f"{name}|raise/iff|{exc}", "raise/iff", fi.short, REFUTED if bad else PROVED,
-                              detail=f"{fi.short} raises {exc} <=> spec {dict((e, s) for e, s, _ in entries)[exc]}; "
+                              detail=f"{fi.short} raises {exc} <=> spec {dict((e, s) for e, s, _m, _g in entries)[exc]}; "
                                      f"{n_raise} raising and {n_ret} returning paths",
                               reason="; ".join(sorted(set(bad))[:3]),
                               witness={"family": "call", "oracle": "guards", "args": [fi.short]}))
@@ -100,7 +107,9 @@ def check_guard(item):
     for o in run.outcomes:
         if o.status == "raise" and o.value:
             e = str(o.value[0])
-            if e not in listed and (e in PACKAGE_EXC or e == "AttributeError") and (fi.short, e) not in DELEGATED:
+            if e in listed and not _msg_ok(o, msgs[e]) and (fi.short, e) in DELEGATED:
+                continue
+            if (e not in listed or not _msg_ok(o, msgs[e])) and (e in PACKAGE_EXC or e == "AttributeError") and (fi.short, e) not in DELEGATED:
                 other[e] = other.get(e, 0) + 1
     obs.append(Obligation(PROP, f"{name}|raise/unlisted", "raise/unlisted", fi.short, REFUTED if other else PROVED,
                           detail=f"{fi.short} raises only the listed exceptions {sorted(listed)}",
@@ -124,26 +133,36 @@ def check_validate(_):
         return [Obligation(PROP, f"{name}|join/validate", "join/validate", fi.short, UNSUPPORTED, reason=run.error)]
     ex = run.ex
     bad = []
-    guards = set()
     n_raise = 0
+    descr = ""
     for o in run.outcomes:
-        txt = " ".join(str(x) for x in o.state.pc)
         if o.status == "raise":
             n_raise += 1
             if not (o.value and str(o.value[0]) == "JoinException"):
                 bad.append(f"raises {o.value and o.value[0]}")
-        guards.add(txt)
-    alltxt = " ".join(guards)
-    need = {"criterion.fields_()": "the tables of the criterion's fields",
-            ".table": "the table of each field",
-            "_from": "the FROM sources", "_joins": "the joined items", ".item": "the item being joined"}
-    for k, what in need.items():
-        if k not in alltxt:
-            bad.append(f"the guard does not depend on {what}")
-    if "setdiff" not in alltxt:
-        bad.append("the guard is not the emptiness of a set difference")
+        by_path = {h.path: h for h in o.state.heap.values()}
+        diffs = [h for h in o.state.heap.values() if h.kind == "set" and h.path.startswith("setdiff")]
+        txt = " ".join(str(x) for x in o.state.pc)
+        if len(diffs) != 1 or "len!setdiff" not in txt:
+            bad.append("the guard is not the emptiness of one set difference")
+            continue
+        m = re.match(r"setdiff[^(]*[(](.*),(.*)[)]", diffs[0].parts[0].path)
+        a, b = (by_path.get(m.group(1)), by_path.get(m.group(2))) if m else (None, None)
+        if a is None or b is None:
+            bad.append("operands of the set difference not found")
+            continue
+        sa, sb = repr(a.parts), sorted(repr(p) for p in b.parts)
+        descr = f"{sa}  minus  {sb}"
+        if not (len(a.parts) == 1 and "Pre(self.criterion.fields_()" in sa and sa.count(".table") == 1
+                and getattr(a.parts[0], "total", False)):
+            bad.append(f"left operand is not the set of tables of the criterion's fields: {sa}")
+        want = [lambda s_: s_.startswith("Pre(_from"), lambda s_: "Pre(_joins" in s_ and ".item" in s_,
+                lambda s_: s_ == "E[$self.item]"]
+        if not (len(sb) == 3 and all(any(w(x) for x in sb) for w in want)):
+            bad.append(f"right operand is not FROM u joined items u the joined item: {sb}")
     if not n_raise:
         bad.append("no path raises JoinException")
+    alltxt = descr
     return [Obligation(PROP, f"{name}|join/validate", "join/validate", fi.short, REFUTED if bad else PROVED,
                        detail="raises JoinException <=> tables(criterion.fields_()) - (FROM u join items u item) "
                               f"is non-empty; guard: {alltxt[:300]}",
@@ -167,11 +186,15 @@ def check_reach(cq):
             bad.append("a returning path appends the join without validate()")
             continue
         c = calls[0]
+        run.ex.st = o.state
         a = [run.ex.ident(x) for x in c.args]
-        if not (len(a) >= 2 and "_from" in a[0] and "_joins" in a[1]):
-            bad.append(f"validate called with {a}")
+        first = c.args[0]
+        parts = repr(o.state.heap[first.oid].parts) if hasattr(first, "oid") else a[0]
+        if not (len(a) >= 2 and all(k in parts for k in ("self._from", "self._update_table", "self._with"))
+                and a[1] == "self._joins"):
+            bad.append(f"validate called with {parts}, {a[1:]}")
     return [Obligation(PROP, f"{name}|join/reach", "join/reach", fi.short, REFUTED if bad else PROVED,
-                       detail="do_join validates the join against self._from and self._joins on every returning path",
+                       detail="do_join validates the join against FROM + UPDATE table + CTEs and the joins on every returning path",
                        reason="; ".join(sorted(set(bad))[:3]),
                        witness={"family": "call", "oracle": "join_validation", "args": []})]
 
@@ -208,8 +231,9 @@ def check_setop(_):
 def generate(tier="quick"):
     r = repo()
     by = {}
-    for fshort, exc, sname, inmod in RAISES:
-        by.setdefault(fshort, []).append((exc, sname, inmod))
+    for ent in RAISES:
+        fshort, exc, sname, inmod = ent[:4]
+        by.setdefault(fshort, []).append((exc, sname, inmod, ent[4] if len(ent) > 4 else None))
     items = []
     funcs = set()
     for fshort, entries in by.items():
